@@ -42,7 +42,18 @@ EDITS = [
      ['utilities.evaluate_bounding_box'], 'caught'),
     ('evaluators.py', "zip(crvpt, ctrlpts[spans[idx] - degree + i])]", "zip(crvpt, ctrlpts[spans[idx] - degree + i + 1])]",
      ['evaluators.CurveEvaluator.evaluate'], 'caught'),
+    ('fitting.py', '    d = sum(cds[1:-1])', '    d = sum(cds[1:])', ['fitting.compute_params_curve'], 'caught'),
+    ('fitting.py', '        uk[i] = sum(cds[0:i + 1]) / d', '        uk[i] = sum(cds[0:i]) / d', ['fitting.compute_params_curve'], 'caught'),
+    ('evaluators.py', 'zip(temp, ctrlpts[idx_v + l + (size[1] * (idx_u + k))])]', 'zip(temp, ctrlpts[idx_u + k + (size[0] * (idx_v + l))])]',
+     ['evaluators.SurfaceEvaluator.evaluate#active_hull'], 'caught'),
+    ('evaluators.py', '            idx_u = spans[0][i] - degree[0]', '            idx_u = spans[0][i] - degree[0] - 1',
+     ['evaluators.SurfaceEvaluator.evaluate#active_hull'], 'caught'),
+    ('evaluators.py', 'zip(temp, ctrlpts[iv + dv + (size[1] * (iu + du + (size[0] * (iw + dw))))])]',
+     'zip(temp, ctrlpts[iv + dv + (size[1] * (iu + du + (size[1] * (iw + dw))))])]', ['evaluators.VolumeEvaluator.evaluate'], 'caught'),
     # ---- harmless
+    ('fitting.py', '    d = sum(cds[1:-1])', '    d = sum(cds[1:num_points])', ['fitting.compute_params_curve'], 'quiet'),
+    ('evaluators.py', 'temp[:] = [tmp + (basis[1][j][l] * cp) for tmp, cp in', 'temp[:] = [(cp * basis[1][j][l]) + tmp for tmp, cp in',
+     ['evaluators.SurfaceEvaluator.evaluate', 'evaluators.SurfaceEvaluator.evaluate#active_hull'], 'quiet'),
     ('helpers.py', '            temp = N[r] / (right[r + 1] + left[j - r])\n            N[r] = saved + right[r + 1] * temp\n            saved = left[j - r] * temp',
      '            quotient = N[r] / (right[r + 1] + left[j - r])\n            N[r] = saved + right[r + 1] * quotient\n            saved = left[j - r] * quotient',
      ['helpers.basis_function'], 'quiet-or-undecided'),          # renames a temporary that the hints mention: may drop to undecided, never an alarm
@@ -66,29 +77,24 @@ def main():
     tmp = tempfile.mkdtemp(prefix='verif_selftest_', dir=os.environ.get('TMPDIR', '/tmp'))
     ok = True
     rows = []
-    try:
-        for k, (fn, old, new, contracts, expect) in enumerate(EDITS):
-            if only and str(k) not in only:
-                continue
-            tree = os.path.join(tmp, 'r%d' % k)
-            os.makedirs(tree)
-            shutil.copytree(os.path.join(REPO, 'geomdl'), os.path.join(tree, 'geomdl'))
+    def one(item):
+        k, (fn, old, new, contracts, expect) = item
+        tree = os.path.join(tmp, 'r%d' % k)
+        os.makedirs(tree)
+        shutil.copytree(os.path.join(REPO, 'geomdl'), os.path.join(tree, 'geomdl'))
+        try:
             path = os.path.join(tree, 'geomdl', fn)
             src = open(path).read()
             if src.count(old) < 1:
-                rows.append((fn, contracts, expect, 'EDIT-DOES-NOT-APPLY (%d matches)' % src.count(old)))
-                ok = False
-                continue
+                return (fn, contracts, expect, 'EDIT-DOES-NOT-APPLY (%d matches)' % src.count(old)), False
             open(path, 'w').write(src.replace(old, new, 1))      # first occurrence = the function under contract
             env = dict(os.environ, VERIF_REPO=tree)
             r = subprocess.run([sys.executable, '-m', 'selftest.run_contracts'] + contracts, capture_output=True, text=True,
-                               cwd=ROOT, env=env, timeout=900)
+                               cwd=ROOT, env=env, timeout=3000)
             try:
                 res = json.loads(r.stdout.strip().split('\n')[-1])
             except Exception:
-                rows.append((fn, contracts, expect, 'RUN-ERROR ' + r.stderr[-300:]))
-                ok = False
-                continue
+                return (fn, contracts, expect, 'RUN-ERROR ' + r.stderr[-300:]), False
             bad = sum(len(v['bad']) for v in res.values())
             refuted = sum(1 for v in res.values() for b in v['bad'] if b[1] == 'refuted')
             if expect == 'caught':
@@ -97,9 +103,17 @@ def main():
                 good = bad == 0
             else:
                 good = refuted == 0 or all(b[2] == 'scaffolding' for v in res.values() for b in v['bad'] if b[1] == 'refuted')
-            ok = ok and good
-            rows.append((fn, contracts, expect, '%s: %d unproved (%d refuted)' % ('OK' if good else 'UNEXPECTED', bad, refuted)))
-            shutil.rmtree(tree)
+            return (fn, contracts, expect, '%s: %d unproved (%d refuted)' % ('OK' if good else 'UNEXPECTED', bad, refuted)), good
+        finally:
+            shutil.rmtree(tree, ignore_errors=True)
+
+    try:
+        from concurrent.futures import ThreadPoolExecutor
+        items = [(k, e) for k, e in enumerate(EDITS) if not only or str(k) in only]
+        with ThreadPoolExecutor(int(os.environ.get('VERIF_NPROC', '12'))) as ex:
+            for row, good in ex.map(one, items):
+                rows.append(row)
+                ok = ok and good
     finally:
         shutil.rmtree(tmp, ignore_errors=True)
     for row in rows:
